@@ -85,7 +85,7 @@ $(BUILD)/bin/regsim: $(BUILD)/obj/regmacros.o
 $(BUILD)/bin/slipsim: $(BUILD)/obj/slipmacros.o
 
 # regpsim makes the C library's malloc fail on demand underneath the library's own ufw_malloc() (link-time seam, nothing in /repo changes)
-$(BUILD)/bin/regpsim: EXTRA_LD := -Wl,--wrap=malloc
+$(BUILD)/bin/regpsim: EXTRA_LD := -Wl,--wrap=malloc -Wl,--wrap=free
 $(BUILD)/bin/%: $(BUILD)/obj/%.o $(BUILD)/obj/hdrmacros.o $(LIBOBJ)
 	@mkdir -p $(dir $@)
 	@echo "  LD  $@"
